@@ -422,8 +422,7 @@ int liberasurecode_encode(int desc,
 
     if (orig_data == NULL) {
         log_error("Pointer to data buffer is null!");
-        ret = -EINVALIDPARAMS;
-        goto out;
+        return -EINVALIDPARAMS;
     }
 
     if (encoded_data == NULL) {
@@ -438,8 +437,7 @@ int liberasurecode_encode(int desc,
 
     if (fragment_len == NULL) {
         log_error("Pointer to fragment length is null!");
-        ret = -EINVALIDPARAMS;
-        goto out;
+        return -EINVALIDPARAMS;
     }
 
     ec_backend_t instance = liberasurecode_backend_instance_get_by_desc(desc);
